@@ -21,7 +21,7 @@ META = {
 }
 EX = [101, 120]
 KEYS = {"none": [], "unrelated": [[107, 101, 121]], "shared": [[107], EX]}       # key. / k.ex.
-EDNS = {"off": ["none"], "on": ["edns", 0, 0, 1232, []], "opts": ["edns", 0, 32768, 4096, [[10, 8, 7], [15, 3, 1]]]}
+EDNS = {"off": ["none"], "on": ["edns", 0, 0, 1232, []], "opts": ["edns", 0, 32768, 4096, [[10, [7] * 8], [15, [1, 1, 1]]]]}
 PADS = [0, 16, 128, 468]
 
 
